@@ -1,4 +1,5 @@
 from yowsup.layers import YowProtocolLayer
+from yowsup.layers.protocol_iq.protocolentities import ErrorIqProtocolEntity
 from .protocolentities import *
 import logging
 
@@ -36,4 +37,10 @@ class YowContactsIqProtocolLayer(YowProtocolLayer):
 
     def sendIq(self, entity):
         if entity.getXmlns() == "urn:xmpp:whatsapp:sync":
-            self.toLower(entity.toProtocolTreeNode())
+            self._sendIq(entity, self.onSyncResult, self.onSyncError)
+
+    def onSyncResult(self, resultNode, originalIqEntity):
+        self.toUpper(ResultSyncIqProtocolEntity.fromProtocolTreeNode(resultNode))
+
+    def onSyncError(self, errorNode, originalIqEntity):
+        self.toUpper(ErrorIqProtocolEntity.fromProtocolTreeNode(errorNode))
